@@ -6,7 +6,7 @@ from ..runner import sut, expect, Fail
 
 ID = 'C19'
 RULE = ('cases: connected graphs with >=1 edge: paths, stars, cycles, fused rings (ladders), random connected '
-        'graphs up to 40 nodes, and resolved molecules with hydrogens (incl. molecules with ez_isomer annotations '
+        'graphs up to 40 nodes (12 % long chains / ladders / trees of 50-130 nodes), and resolved molecules with hydrogens (incl. molecules with ez_isomer annotations '
         'from slash marks); default_bond drawn from [0.1, 10]; each graph is laid out as is and as a consistently '
         'relabelled copy (integer keys -> string keys or shifted integers, annotations relabelled too); numpy '
         'seed drawn. Oracle: set(pos) == set(G), every position a finite ndarray of shape (2,), no two bonded '
@@ -41,7 +41,9 @@ def gen(R, tier):
                 return None
         spec = dict(kind=kind, string=s)
     else:
-        n = R.choice([R.randint(2, 5), R.randint(5, 15), R.randint(15, 40)])
+        n = R.choice([R.randint(2, 5), R.randint(5, 15), R.randint(15, 40), R.randint(2, 12), R.randint(5, 15)])
+        if kind in ('path', 'random', 'ladder') and R.chance(0.12):
+            n = R.randint(50, 130 if tier == 'thorough' else 90)      # long, extended molecules
         if kind == 'path':
             edges = [[i, i + 1] for i in range(n - 1)]
         elif kind == 'star':
@@ -62,7 +64,7 @@ def gen(R, tier):
         spec = dict(kind=kind, n=n, edges=edges)
     spec['relabel'] = R.choice(['str', 'shift', 'reverse'])
     return dict(input=spec, bond=round(R.choice([R.uniform(0.1, 1.0), 1.0, R.uniform(1.0, 10.0)]), 4),
-                np_seed=R.randint(0, 2 ** 31 - 1), features=['kind:' + kind, 'relabel:' + spec['relabel']])
+                np_seed=R.randint(0, 2 ** 31 - 1), features=['kind:' + kind, 'relabel:' + spec['relabel']] + (['nodes>=50'] if spec.get('n', 0) >= 50 else []))
 
 
 def build(spec):
